@@ -112,6 +112,7 @@ def run(ctx: Ctx) -> None:
     from ..rules import memo as _memo
     _memo.rule_memo_sound(ctx, ['graphiq/circuit/circuit_dag.py', 'graphiq/backends/compiler_base.py', 'graphiq/metrics.py'])
     _memo.rule_falsy_zero(ctx, ['graphiq/circuit/circuit_dag.py', 'graphiq/backends/compiler_base.py', 'graphiq/metrics.py'])
+    _memo.rule_arg_names(ctx, ['graphiq/circuit/circuit_dag.py', 'graphiq/backends/compiler_base.py', 'graphiq/metrics.py'])
     effects.rule_inplace_on_input(ctx)
     effects.rule_shared_op_store(ctx)
     effects.rule_alias_into_state(ctx)
